@@ -188,18 +188,6 @@ def consume(fmt, data, cfg, stats, log):
     stats.count("reader_outcome.%s.input-format-error" % fmt)
     stats.seen("exc_signature", fmt, _frame_sig(e))
     return "format-error:" + type(e).__name__
-  except RuntimeError as e:
-    inner = core.innermost_ttconv_frame(e)
-    tb = e.__traceback__
-    while tb.tb_next is not None:
-      tb = tb.tb_next
-    fn = tb.tb_frame.f_code.co_filename
-    if type(e) is RuntimeError and ("/ttconv/%s/" % ("imsc" if fmt == "ttml" else fmt)) in fn:
-      # deliberately signalled by the reader module itself with an unlisted type: ambiguous, counted only
-      stats.count("reader_outcome.%s.reader-raised-RuntimeError" % fmt)
-      stats.seen("exc_signature", fmt, _frame_sig(e))
-      return "reader-runtime-error"
-    raise core.Violation("reader:%s:%s@%s" % (fmt, type(e).__name__, inner), "%s: %s" % (type(e).__name__, e))
   except Exception as e:
     raise core.Violation("reader:%s:%s" % (fmt, _frame_sig(e)), "%s: %s" % (type(e).__name__, str(e)[:300]))
   if doc is None:
@@ -442,7 +430,7 @@ def describe():
                    "reference": ["error-class contract of C18 + 'no exception downstream'"]},
     "assumptions": [
       "exceptions raised by xml.etree while parsing (before the IMSC reader is called) count as the input being rejected by the XML parser, whatever their type",
-      "a RuntimeError raised by a raise statement located in the reader's own package is ambiguous under the statement (neither listed as allowed nor as internal) and is only counted; a RuntimeError surfacing from model.py or any other module alarms",
+      "the list of input-format errors in the statement is read as exhaustive: any other exception type escaping a reader alarms, including a RuntimeError that the reader raises deliberately",
       "termination is decided by wall limits (soft 20 s per run, confirmation run alone with 120 s), not by a step counter",
       "exhaustive=false: the single-fault dimension is complete per swept file, files and multi-fault combinations are sampled",
     ],
